@@ -75,10 +75,14 @@ type TermTable struct {
 	terms []*Term
 	True  *Term
 	False *Term
+	// narrow[id] is a term n of smaller width with zext(n) == terms[id]
+	// (only for bit-vector terms whose value is known to fit).
+	narrow   map[int]*Term
+	noNarrow bool
 }
 
 func NewTermTable() *TermTable {
-	tt := &TermTable{tab: map[termKey]*Term{}}
+	tt := &TermTable{tab: map[termKey]*Term{}, narrow: map[int]*Term{}}
 	tt.False = tt.Const(0, 0)
 	tt.True = tt.Const(0, 1)
 	return tt
@@ -229,7 +233,9 @@ func (tt *TermTable) Ite(c, a, b *Term) *Term {
 			return tt.And(c, a)
 		}
 	}
-	return tt.mk(OpIte, a.W, 0, "", c, a, b)
+	t := tt.mk(OpIte, a.W, 0, "", c, a, b)
+	tt.noteNarrow(t)
+	return t
 }
 
 func (tt *TermTable) Eq(a, b *Term) *Term {
@@ -270,6 +276,18 @@ func (tt *TermTable) Eq(a, b *Term) *Term {
 	}
 	if a.IsConst() && b.Op == OpZext {
 		return tt.Eq(b, a)
+	}
+	if a.W >= 16 {
+		// a narrow-representable term can never equal a constant that does not fit
+		if na, ok := tt.Narrow(a); ok && b.IsConst() && b.K&^mask(na.W) != 0 {
+			return tt.False
+		}
+		if nb, ok := tt.Narrow(b); ok && a.IsConst() && a.K&^mask(nb.W) != 0 {
+			return tt.False
+		}
+		if na, nb, ok := tt.narrowPair(a, b); ok {
+			return tt.Eq(na, nb)
+		}
 	}
 	if a.ID > b.ID {
 		a, b = b, a
@@ -363,6 +381,37 @@ func (tt *TermTable) cmp(op Op, a, b *Term) *Term {
 			nop = OpUle
 		}
 		return tt.cmp(nop, a.A[0], b.A[0])
+	}
+	if a.W >= 16 {
+		signed := op == OpSlt || op == OpSle
+		uop := op
+		if op == OpSlt {
+			uop = OpUlt
+		} else if op == OpSle {
+			uop = OpUle
+		}
+		na, oka := tt.Narrow(a)
+		nb, okb := tt.Narrow(b)
+		if oka && okb {
+			w := na.W
+			if nb.W > w {
+				w = nb.W
+			}
+			return tt.cmp(uop, tt.widen(na, w), tt.widen(nb, w))
+		}
+		// narrow non-negative value against a constant that does not fit
+		if oka && b.IsConst() {
+			if signed && sext64(b.K, b.W) < 0 {
+				return tt.False // nonneg < negative
+			}
+			return tt.True // small < big
+		}
+		if okb && a.IsConst() {
+			if signed && sext64(a.K, a.W) < 0 {
+				return tt.True
+			}
+			return tt.False
+		}
 	}
 	return tt.mk(op, 0, 0, "", a, b)
 }
@@ -490,7 +539,9 @@ func (tt *TermTable) Bin(op Op, a, b *Term) *Term {
 			a, b = b, a
 		}
 	}
-	return tt.mk(op, a.W, 0, "", a, b)
+	t := tt.mk(op, a.W, 0, "", a, b)
+	tt.noteNarrow(t)
+	return t
 }
 
 func (tt *TermTable) Add(a, b *Term) *Term { return tt.Bin(OpAdd, a, b) }
@@ -685,3 +736,117 @@ func (t *Term) Size(seen map[int]bool) int {
 }
 
 func bitsLen(x uint64) int { return bits.Len64(x) }
+
+
+// ---- narrowing: many 64-bit Go values are tiny (digits, lengths, counters).
+// For such terms a narrow shadow is kept so that comparisons and equalities
+// can be bit-blasted at the narrow width.
+
+const maxNarrow = 40
+
+// Narrow returns (n, true) when zext(n) == t for a term n narrower than t.
+func (tt *TermTable) Narrow(t *Term) (*Term, bool) {
+	if tt.noNarrow || t.W == 0 {
+		return nil, false
+	}
+	if t.Op == OpConst {
+		w := bitsLen(t.K)
+		if w == 0 {
+			w = 1
+		}
+		if w < t.W && w <= maxNarrow {
+			return tt.Const(w, t.K), true
+		}
+		return nil, false
+	}
+	if t.Op == OpZext {
+		return t.A[0], true
+	}
+	n, ok := tt.narrow[t.ID]
+	return n, ok
+}
+
+func (tt *TermTable) widen(a *Term, w int) *Term {
+	if a.W == w {
+		return a
+	}
+	return tt.Resize(a, w, false)
+}
+
+// noteNarrow is called by constructors for freshly built wide terms.
+func (tt *TermTable) noteNarrow(t *Term) {
+	if tt.noNarrow || t.W < 16 {
+		return
+	}
+	if _, done := tt.narrow[t.ID]; done {
+		return
+	}
+	switch t.Op {
+	case OpIte:
+		a, ok1 := tt.Narrow(t.A[1])
+		b, ok2 := tt.Narrow(t.A[2])
+		if ok1 && ok2 {
+			w := a.W
+			if b.W > w {
+				w = b.W
+			}
+			tt.narrow[t.ID] = tt.Ite(t.A[0], tt.widen(a, w), tt.widen(b, w))
+		}
+	case OpAdd:
+		a, ok1 := tt.Narrow(t.A[0])
+		b, ok2 := tt.Narrow(t.A[1])
+		if ok1 && ok2 {
+			w := a.W
+			if b.W > w {
+				w = b.W
+			}
+			w++
+			if w < t.W && w <= maxNarrow {
+				tt.narrow[t.ID] = tt.Bin(OpAdd, tt.widen(a, w), tt.widen(b, w))
+			}
+		}
+	case OpMul:
+		a, ok1 := tt.Narrow(t.A[0])
+		b, ok2 := tt.Narrow(t.A[1])
+		if ok1 && ok2 {
+			w := a.W + b.W
+			if w < t.W && w <= maxNarrow {
+				tt.narrow[t.ID] = tt.Bin(OpMul, tt.widen(a, w), tt.widen(b, w))
+			}
+		}
+	case OpBvAnd:
+		a, ok1 := tt.Narrow(t.A[0])
+		b, ok2 := tt.Narrow(t.A[1])
+		if ok1 && ok2 {
+			w := a.W
+			if b.W > w {
+				w = b.W
+			}
+			tt.narrow[t.ID] = tt.Bin(OpBvAnd, tt.widen(a, w), tt.widen(b, w))
+		}
+	case OpBvOr, OpBvXor:
+		a, ok1 := tt.Narrow(t.A[0])
+		b, ok2 := tt.Narrow(t.A[1])
+		if ok1 && ok2 {
+			w := a.W
+			if b.W > w {
+				w = b.W
+			}
+			tt.narrow[t.ID] = tt.Bin(t.Op, tt.widen(a, w), tt.widen(b, w))
+		}
+	}
+}
+
+// narrowPair brings two wide terms to a common narrow width when both fit.
+func (tt *TermTable) narrowPair(a, b *Term) (*Term, *Term, bool) {
+	na, ok1 := tt.Narrow(a)
+	nb, ok2 := tt.Narrow(b)
+	if !ok1 || !ok2 {
+		return nil, nil, false
+	}
+	w := na.W
+	if nb.W > w {
+		w = nb.W
+	}
+	return tt.widen(na, w), tt.widen(nb, w), true
+}
